@@ -950,7 +950,7 @@ fn serde_keys_never_omitted(values: &[serde_json::Value], full: &[serde_json::Va
 impl Property for C16 {
     type Case = Case;
     const ID: &'static str = "C16";
-    const RULE: &'static str = "generated programs: batches of 24 type definitions over the supported grammar — structs (named fields, newtype, tuple, unit) and enums (unit-only, externally/internally/adjacently tagged, untagged; unit, newtype and struct variants) with fields of every type that implements Schema, references to earlier generated types, Option, #[serde(rename, rename_all = each of the 8 cases, rename_all_fields, skip, default, skip_serializing_if, flatten, tag, content, untagged)], #[openapi(component)]; field and variant names chosen so that every case rule gives a different result (multi-word, digits, acronyms, single letters). Each batch is compiled with rustc against ohkami/serde built from /repo and run; a definition the derive rejects is recorded and removed (with its dependents), then the batch is recompiled. Oracle per type on 10 generated values: keys of serde_json::to_value over full values = the schema's property names; required(k) ⇔ serde never omits k when writing and cannot read an object without k; every serialised value validates against the schema (Python jsonschema sidecar, nullable honoured). Non-trivial type = carries at least one serde attribute or is an enum; distinct by definition.";
+    const RULE: &'static str = "generated programs: batches of 24 type definitions over the supported grammar — structs (named fields, newtype, tuple, unit) and enums (unit-only, externally/internally/adjacently tagged, untagged; unit, newtype, struct and tuple variants, a tuple element possibly #[serde(skip)] — also all but one of them) with fields of the scalar types that implement Schema (String, u8 u16 u32 u64 i8 i16 i32 i64 with MIN/MAX values, f32 f64, [u8; 3], Vec), references to earlier generated types, generic helper types over a simple argument (ShippingOption<A>, Timed<A>, the newtype PickOption<A>), Option, #[serde(rename, rename_all = each of the 8 cases, rename_all_fields, skip, default, skip_serializing_if, flatten, tag, content, untagged)], #[openapi(component)]; field and variant names chosen so that every case rule gives a different result (multi-word, digits, acronyms, single letters). Each batch is compiled with rustc against ohkami/serde built from /repo and run; a definition the derive rejects is recorded and removed (with its dependents), then the batch is recompiled. Oracle per type on 10 generated values: keys of serde_json::to_value over full values = the schema's property names; required(k) ⇔ serde never omits k when writing and cannot read an object without k; every serialised value validates against the schema (Python jsonschema sidecar, nullable honoured). Non-trivial type = carries at least one serde attribute or is an enum; distinct by definition.";
     const ASSUMPTIONS: &'static [&'static str] = &[
         "the batch compiles with serde alone (normalisation keeps serde's own restrictions: flatten only over structs, internally tagged newtype variants wrap structs, skipped fields are Default)",
         "attribute combinations outside the grammar (serde(with), generics, lifetimes) are not covered",
